@@ -51,3 +51,42 @@ Example C07_nonvacuous :
   = Ok [Pkg WORDNET b].
 Proof. vm_compute. reflexivity. Qed.
 Print Assumptions C07_nonvacuous.
+
+(* ---- the remaining clauses of C07 over the model of add_lexical_resource (Model/Add.v; the same lemmas as Properties/C05.v):
+   adding lexicons that are all installed already changes nothing; an extension whose base is not installed is skipped as a
+   whole (the database is returned as it was); what is skipped depends only on (id, version, extends).  With C07_all_routes_same
+   (every route yields the one resource, which add then processes) this gives "the same content whatever the route".
+   "Neither the input file nor an in-memory resource is modified" has no Gallina counterpart (values are immutable): it is
+   decided on the real code by file hashes and deep copies (harness/impl/run_C07.py). *)
+Require Import WnV.Base.Sx WnV.Gen.Schema WnV.Gen.Constants WnV.Model.Spec WnV.Model.Val.
+Require Import WnV.Model.Rel WnV.Model.Add WnV.Proofs.AddProofs.
+Local Open Scope string_scope.
+
+Theorem C07_add_lexical_resource_skips :
+  forall (d : db) (r : val) (nt : normtable) (lexs : list val),
+         vreq r "lexicons" = Ok (VList lexs) ->
+         (forall lex : val, In lex lexs -> installed d lex \/ base_missing d lex) ->
+         add_lexical_resource d r nt = Ok d.
+Proof. exact (@add_lexical_resource_skips). Qed.
+Print Assumptions C07_add_lexical_resource_skips.
+
+Theorem C07_readd_is_noop :
+  forall (d : db) (r : val) (nt : normtable) (lexs : list val),
+         vreq r "lexicons" = Ok (VList lexs) ->
+         (forall lex : val, In lex lexs -> installed d lex) -> add_lexical_resource d r nt = Ok d.
+Proof. exact (@readd_is_noop). Qed.
+Print Assumptions C07_readd_is_noop.
+
+Theorem C07_extensions_without_base_skipped :
+  forall (d : db) (r : val) (nt : normtable) (lexs : list val),
+         vreq r "lexicons" = Ok (VList lexs) ->
+         (forall lex : val, In lex lexs -> base_missing d lex) -> add_lexical_resource d r nt = Ok d.
+Proof. exact (@extensions_without_base_skipped). Qed.
+Print Assumptions C07_extensions_without_base_skipped.
+
+Theorem C07_precheck_depends_on_spec_only :
+  forall (d : db) (infos infos' : list val),
+         Forall2 same_spec infos infos' -> _precheck infos d = _precheck infos' d.
+Proof. exact (@precheck_depends_on_spec_only). Qed.
+Print Assumptions C07_precheck_depends_on_spec_only.
+
